@@ -45,6 +45,9 @@ def gen_plan(rng, i: int, tier: str) -> dict:
             "delivery": rng.choice((None, {"mode": "rand", "seed": rng.getrandbits(16), "bias": "small"})),
             "ops": [], "pmode": pmode, "umode": umode}
     r2 = random.Random(plan["seed"])
+    if r2.random() < 0.1:
+        # the DC's services answer completely and then abort (or close) the connection at once
+        plan["dc"]["after_response"] = r2.choice(("rst", "rst", "eof"))
     if r2.random() < 0.3:
         # the wall clock keeps moving: every reading is later than the one before, so a call that starts within a few ticks of an
         # interval boundary sees the boundary pass while it runs
@@ -57,6 +60,11 @@ def gen_plan(rng, i: int, tier: str) -> dict:
     else:
         ops.append({"op": "protect", "fl": pfl, "sid": sid, "rk": rng.choice((0, None)), "net": "online", "data": data})
     adv = rng.choice((0, 1, B - 1, B, 32 * B, 1024 * B, rng.randrange(0, 3 * 1024 * B)))
+    if umode == "offline" and r2.random() < 0.35:  # (offline reader: a DC sharing the stepped-back clock would rightly refuse a key of its future)
+        # the reader's wall clock is BEHIND the writer's (two hosts, an NTP step): by a tick, an L2 / L1 interval, or back over the
+        # boundary the protect started just after
+        adv = -r2.choice((1, 9, B - 1, B, 2 * B, 32 * B, 1 + ft % B, 1 + ft % (32 * B)))
+        plan["reader_clock_behind"] = True
     if adv:
         ops.append({"op": "clock", "advance_ticks": adv})
     first = len(ops) - 1 - (1 if adv else 0)
@@ -73,7 +81,12 @@ def gen_plan(rng, i: int, tier: str) -> dict:
         plan["second_sid"] = sid2
     relayout = rng.choice((False, False, False, True, "lib", "lib"))  # True = re-packed by the reference, "lib" = by DPAPINGBlob.pack(blob_in_envelope=False)
     blob = {"from_op": first, "relayout": relayout}
-    if umode == "offline":
+    if umode == "offline" and r2.random() < 0.5:
+        # another process / host that holds the same root key and nothing else
+        ops.append({"op": "load_key", "rk": 0, "cache": "reader"})
+        ops.append({"op": "unprotect", "fl": ufl, "net": "offline", "blob": blob, "cache": "reader"})
+        plan["reader_has_own_cache"] = True
+    elif umode == "offline":
         if pmode != "offline":
             ops.append({"op": "load_key", "rk": 0})
         ops.append({"op": "unprotect", "fl": ufl, "net": "offline", "blob": blob})
@@ -239,12 +252,12 @@ class C01(common.Check):
             "{DH, P256, P384}, SIDs with 1..15 sub-authorities incl. 0 and 2^32-1, plaintext lengths 0..65536 (1 MiB in thorough). Plus round trips "
             "whose halves overlap with other calls: 2..3 protects from caller threads of one process (deterministic thread scheduler), and blobs "
             "of different positions of one L0 unprotected at the same time (async, oldest first) on a cache that starts empty; one cache holding two root keys with different KDF hashes used in turn; the key "
-            "service restarting on another dynamic port between two online calls. "
+            "service restarting on another dynamic port between two online calls; an offline reader (same cache, or a cache of its own holding only the root key) whose wall clock is behind the writer's by a tick up to an L1 interval; DC services that abort or close the connection right after every complete Response. "
             "Non-trivial = every plan (distinct clock / path / shape combination); distinct = distinct plan.")
     components = {"client": "real (public API both flavours, KeyCache, RPC client, codecs, crypto)", "DC": "model (RefDC, independent derivation)",
                   "clock / entropy / network": "simulated", "security context": "stub (StubCtx)", "cross-check": "ref.cms decrypts every emitted blob"}
     assumptions = ["client and DC share the simulated clock in C01 plans (skew is C17's subject)"]
-    required_fired = ("mode_pub", "mode_nonce", "pos_l2_31", "relayout", "relayout_by_library", "roundtrip_ok", "pt_big", "two_protects_one_cache", "moving_clock", "l0_boundary_during_protect", "concurrent_threads", "concurrent_async", "thread_overlap", "two_root_keys_one_cache", "dc_restarted")
+    required_fired = ("mode_pub", "mode_nonce", "pos_l2_31", "relayout", "relayout_by_library", "roundtrip_ok", "pt_big", "two_protects_one_cache", "moving_clock", "l0_boundary_during_protect", "concurrent_threads", "concurrent_async", "thread_overlap", "two_root_keys_one_cache", "dc_restarted", "reader_clock_behind_writer", "reader_clock_behind_with_own_cache", "connection_aborted_after_reply")
 
     def cases(self, tier, seed):
         rng = prng.stream(seed, "C01")
@@ -266,6 +279,11 @@ class C01(common.Check):
             probes["two_root_keys_one_cache"] = 1
         if case.get("family") == "dc-restart":
             probes["dc_restarted"] = tr.world.stats.get("dc_restart", 0)
+        if case.get("reader_clock_behind"):
+            probes["reader_clock_behind_writer"] = 1
+            probes["reader_clock_behind_with_own_cache"] = int(bool(case.get("reader_has_own_cache")))
+        if (case.get("dc") or {}).get("after_response"):
+            probes["connection_aborted_after_reply"] = 1
         if case.get("clock_tick_ns"):
             probes["moving_clock"] = 1
             d0 = case["clock_ft"] % (1024 * B)
